@@ -13,7 +13,7 @@
    Formula models are written once over the signature NumOps and instantiated with R (theorems),
    with binary64 PrimFloat (run by vm_compute against numpy) and with Q (exact runs). *)
 From Coq Require Import ZArith QArith Reals List Bool.
-From MV Require Import Lib.Rigid.
+From MV Require Import Lib.Rigid Gen.GenCylMask.
 Import ListNotations.
 
 (* ------------------------------------------------------------------ numeric signature *)
@@ -101,10 +101,13 @@ Definition sphere_moment (mu0 d : num N) (p : vec) : vec :=
   vmap (fun pi => pi * (npi N * pow3 (nabs N d) / #6) / mu0) p.
 
 (* ---- BHJM_magnet_cylinder, J and M branches, in cylinder coordinates (r, z) of the observer ---- *)
-Definition cyl_inside (r z d h : num N) : bool :=
+(* mask_between_bases = np.abs(z) <= z0 stands either before (pre = true) or after (pre = false) the scaling
+   z = z / r0, z0 = z0 / r0; which one the code has NOW is translated on every run (Gen/GenCylMask.v) *)
+Definition cyl_inside_gen (pre : bool) (r z d h : num N) : bool :=
   let r0 := d / #2 in let z0 := h / #2 in
   let r' := r / r0 in let z' := z / r0 in let z0' := z0 / r0 in
-  nleb N (nabs N z') z0' && nleb N r' #1.
+  (if pre then nleb N (nabs N z) z0 else nleb N (nabs N z') z0') && nleb N r' #1.
+Definition cyl_inside : num N -> num N -> num N -> num N -> bool := cyl_inside_gen cyl_bases_before_scaling.
 
 Definition cyl_JM (fld : fieldT) (mu0 r z d h : num N) (p : vec) : vec :=
   let j := if cyl_inside r z d h then p else vzero3 in
